@@ -225,6 +225,22 @@ Lemma unwritten_preserved la m m' r :
   exec la swap_code m = Exited m' -> ~ In r (written swap_code) -> rg m' r = rg m r.
 Proof. intros H N. eapply run_unwritten; eauto. Qed.
 
+(* ---------- the C statements around the template (syntactic shape) ---------- *)
+(* the split-stack bookkeeping of fiber_context_swap, as (condition, call) pairs *)
+Definition split_calls : list (pguard * pkind) :=
+  map (fun c => (pc_guard c, pc_kind c))
+      (filter (fun c => is_split_kind (pc_kind c) || is_split_guard (pc_guard c)) swap_prologue).
+
+Lemma prologue_ok :
+  forallb pc_uncond swap_prologue = true /\
+  split_calls = [(GSplit, KSplitGetFrom); (GSplit, KSplitSetTo)].
+Proof. vm_compute. split; reflexivity. Qed.
+
+Lemma stack_calls_ok :
+  init_alloc_calls = 1%nat /\ init_alloc_first = true /\
+  destroy_free_calls = 1%nat /\ destroy_guard_not_thread = true.
+Proof. vm_compute. repeat split; reflexivity. Qed.
+
 (* ---------- any sequence of switches among any set of contexts ---------- *)
 (* [live] is the set of contexts; per context c: [slot c] = address of its
    ctx_stack_pointer field, its private stack is [lo c, hi c) *)
